@@ -24,6 +24,7 @@ type wsAnchors struct {
 	setters   map[*ssa.Function]bool // store true into the flag
 	onceBody  []*ssa.Function        // literals passed to sync.Once.Do on a field of typ
 	closers   map[*ssa.Function]bool // functions calling Once.Do(onceBody)
+	wrappers  map[*ssa.Function]bool // functions that do nothing but call a setter (their call sites are the flag-setting sites)
 	writeFn   *ssa.Function          // implements WebsocketDataWriterInterface.WriteMessageToWebsocketConnection
 	mReport   *types.Func            // WebsocketDataReaderInterface.ReportConnectionError
 	mIncoming *types.Func            // WebsocketDataReaderInterface.HandleIncomingWebsocketMessage
@@ -193,6 +194,35 @@ func findWS(p *core.Program, r *core.Report, rule string) *wsAnchors {
 	}
 	if len(a.getters) == 0 && false {
 		r.Unresolved(rule, "closed-flag getter")
+	}
+	// pure wrappers of a setter (markClosed() { w.setClosed(nil) }) are setters themselves
+	a.wrappers = map[*ssa.Function]bool{}
+	for changed := true; changed; {
+		changed = false
+		for _, fn := range a.fns {
+			if a.setters[fn] || len(fn.Blocks) == 0 {
+				continue
+			}
+			all, any := true, false
+			core.EachInstr(fn, func(in ssa.Instruction) {
+				c := core.Common(in)
+				if c == nil {
+					return
+				}
+				if _, op, _ := core.MutexOp(in); op != 0 {
+					return
+				}
+				if t := c.StaticCallee(); t != nil && a.setters[t] {
+					any = true
+					return
+				}
+				all = false
+			})
+			if all && any {
+				a.setters[fn], a.wrappers[fn] = true, true
+				changed = true
+			}
+		}
 	}
 	return a
 }
@@ -576,6 +606,37 @@ func checkC12(p *core.Program, r *core.Report) {
 			r.Fail(R11, "write deadline", "", "no write deadline is ever armed: a stalled peer blocks the write pump for ever")
 		}
 	}
+	// R12: no mutex of the connection is acquired while it may already be held by the same call chain
+	const R12 = "C12.R12 no-reentrant-acquire"
+	r.Rule(R12, "no function of the websocket connection acquires one of the connection's mutexes - in either mode - on a path on which the calling chain may already hold it: sync mutexes are not re-entrant, and a second RLock blocks as soon as a writer (the close path storing the closed flag) queues up between the two, after which every writer, the pumps and the close itself hang")
+	{
+		may := core.MayLocks(a.fns)
+		nacq := 0
+		seenK := map[string]bool{}
+		for _, fn := range a.fns {
+			fn := fn
+			core.EachInstr(fn, func(in ssa.Instruction) {
+				if _, isDefer := in.(*ssa.Defer); isDefer {
+					return
+				}
+				id, op, _ := core.MutexOp(in)
+				if op <= 0 || !strings.HasPrefix(id, "ws.") {
+					return
+				}
+				nacq++
+				key := "acquire of " + id + " in " + p.FnName(fn)
+				if may[in][id] || may[in][id+"#R"] {
+					r.Fail(R12, key, p.Pos(in.Pos()), id+" may already be held (by this function or a caller in the chain) when it is acquired here")
+					seenK[key] = true
+				} else if !seenK[key] {
+					r.OK(R12, key, p.Pos(in.Pos()), "not held on any path to here")
+				}
+			})
+		}
+		if nacq == 0 {
+			r.Fail(R12, "mutex acquisitions", "", "no mutex acquisition found in package ws")
+		}
+	}
 	const R9 = "C12.R9 close-routine-always-releases"
 	r.Rule(R9, "every path through the close routine closes the stop/escape channel and the socket (shared with C13.R1): an early return before close(closeChannel) leaves writers blocked on the full queue for ever")
 	importRules(p, r, "C13", map[string]string{"C13.R1 close-routine-releases": R9}, nil)
@@ -720,13 +781,38 @@ func selectNilReturnOffArm(fn *ssa.Function, sel *ssa.Select, sendIdx int) ssa.I
 		}
 		return truth && c.String() == fmt.Sprint(sendIdx)
 	}
-	return core.PathSearch(fn, sel, func(in ssa.Instruction) bool {
+	// a return whose value is merged from the arms (single return after the select) is judged per incoming edge:
+	// the off-arm paths must not be the ones that supply a possibly-nil value
+	targets := map[ssa.Instruction]bool{}
+	core.EachInstr(fn, func(in ssa.Instruction) {
 		ret, ok := in.(*ssa.Return)
 		if !ok || len(ret.Results) == 0 {
-			return false
+			return
 		}
-		return maybeNilError(core.ResultOf(ret, len(ret.Results)-1), 0)
-	}, nil, removed)
+		res := core.ResultOf(ret, len(ret.Results)-1)
+		if phi, ok := res.(*ssa.Phi); ok {
+			for k, e := range phi.Edges {
+				if maybeNilError(e, 0) {
+					pred := phi.Block().Preds[k]
+					// the edge pred -> phi block itself may be the send arm's edge
+					viaRemoved := true
+					for idx, sc := range pred.Succs {
+						if sc == phi.Block() && !removed(pred, idx) {
+							viaRemoved = false
+						}
+					}
+					if !viaRemoved {
+						targets[pred.Instrs[len(pred.Instrs)-1]] = true
+					}
+				}
+			}
+			return
+		}
+		if maybeNilError(res, 0) {
+			targets[ret] = true
+		}
+	})
+	return core.PathSearch(fn, sel, func(in ssa.Instruction) bool { return targets[in] }, nil, removed)
 }
 
 // maybeNilError: the error value is not known to be non-nil (a constant nil, or anything that is not a freshly
@@ -741,6 +827,23 @@ func maybeNilError(v ssa.Value, depth int) bool {
 	switch x := v.(type) {
 	case *ssa.MakeInterface:
 		return false
+	case *ssa.Call:
+		// a helper of the repository that only returns freshly constructed errors
+		if t := x.Call.StaticCallee(); t != nil && t.Blocks != nil && depth <= 3 && t.Signature.Results().Len() == 1 {
+			for _, b := range t.Blocks {
+				if ret, ok := b.Instrs[len(b.Instrs)-1].(*ssa.Return); ok {
+					if maybeNilError(ret.Results[0], depth+1) {
+						return true
+					}
+				}
+			}
+			return false
+		}
+	case *ssa.UnOp:
+		// a package-level error variable initialised with errors.New (var errClosed = errors.New(...)), never reassigned
+		if g, ok := x.X.(*ssa.Global); ok && x.Op == token.MUL {
+			return !globalFreshError(g)
+		}
 	case *ssa.Phi:
 		if depth > 3 {
 			return true
@@ -897,6 +1000,9 @@ func checkC13(p *core.Program, r *core.Report) {
 			}
 			if direct && a.setters[fn] && isPureSetter(fn, a.flag) {
 				return // the setter helper itself; its call sites are checked
+			}
+			if a.wrappers[fn] {
+				return // a pure wrapper of the setter; its call sites are checked
 			}
 			key := fmt.Sprintf("%s flag-set@%s runs-close-routine", tn, p.FnName(fn))
 			// a closer call dominates the site, or every path from the site passes one
@@ -1249,6 +1355,53 @@ func checkC13(p *core.Program, r *core.Report) {
 	} else {
 		r.Unresolved(R8, "CloseDataConnection of the websocket connection")
 	}
+	// ---- R2 (cont.): what the read pump calls to get a message never closes the connection itself
+	{
+		mayCloseLocally := core.NewMay(p, false, func(in ssa.Instruction) bool {
+			if a.callsCloser(in) || a.callsSetter(in) {
+				return true
+			}
+			f, _, _ := core.StoredField(in)
+			return f != nil && f == a.flag
+		})
+		nrd := 0
+		for _, fn := range a.fns {
+			pump := false
+			core.EachInstr(fn, func(in ssa.Instruction) {
+				if core.IsInvokeOf(in, a.mIncoming) {
+					pump = true
+				}
+			})
+			if !pump {
+				continue
+			}
+			fn := fn
+			core.EachInstr(fn, func(in ssa.Instruction) {
+				c, ok := in.(*ssa.Call)
+				if !ok {
+					return
+				}
+				t := c.Call.StaticCallee()
+				if t == nil || t.Blocks == nil || p.PkgShort(t) != "ws" {
+					return
+				}
+				res := t.Signature.Results()
+				if res.Len() == 0 || types.TypeString(res.At(res.Len()-1).Type(), nil) != "error" {
+					return
+				}
+				nrd++
+				key := tn + " read step " + p.FnName(t) + " leaves the closing to the pump"
+				if mayCloseLocally.Fn(t) {
+					r.Fail(R2, key, p.Pos(in.Pos()), "the function the read pump calls to obtain a message can mark / close the connection itself before it returns the error (e.g. for a frame it rejects): the pump then takes the error for the echo of a local close and stays silent - the SHIP layer is never told, the hub keeps the dead connection registered")
+				} else {
+					r.OK(R2, key, p.Pos(in.Pos()), "only returns the error")
+				}
+			})
+		}
+		if nrd == 0 {
+			r.Fail(R2, tn+" read step", "", "the read pump's message source is not recognisable")
+		}
+	}
 	// ---- R10 callbacks into the SHIP layer are open calls
 	const R10 = "C13.R10 callbacks-hold-no-transport-lock"
 	r.Rule(R10, "every call of the data-processing callbacks (ReportConnectionError, HandleIncomingWebsocketMessage) is made with no mutex of the websocket connection held on any path: the SHIP layer reacts to a reported error by calling back into the transport (CloseDataConnection with a reason writes a close frame and takes the write mutex), so a report made under that mutex blocks the reporting pump for ever and the end of the connection is never told")
@@ -1338,7 +1491,31 @@ func checkWriteFailureReported(p *core.Program, r *core.Report, a *wsAnchors, ru
 	}
 	mayWrite := core.NewMay(p, false, isIOWrite)
 	isRep := func(in ssa.Instruction) bool { return core.IsInvokeOf(in, a.mReport) }
+	// a helper that handles the failed write may itself skip the report when the connection was closed meanwhile
+	closedEdgeG := func(b *ssa.BasicBlock, idx int) bool {
+		i := core.BlockIf(b)
+		if i == nil {
+			return false
+		}
+		v, truth := core.Truth(i.Cond, idx)
+		return truth && a.flagRead(v)
+	}
 	mustRep := core.NewMust(p, 3, isRep)
+	mustRep.Removed = closedEdgeG
+	mustRepUncond := core.NewMust(p, 3, isRep)
+	// reportsUnchecked: the instruction reports on every path without the closed flag being re-read on the way
+	// (directly, or inside a helper of the package)
+	reportsUnchecked := func(in ssa.Instruction) bool {
+		if mustRepUncond.Instr(in) {
+			return true
+		}
+		if c, ok := in.(*ssa.Call); ok {
+			if h := c.Call.StaticCallee(); h != nil && h.Blocks != nil && p.PkgShort(h) == "ws" && mustRep.Instr(in) {
+				return core.PathSearch(h, nil, mustRepUncond.Instr, a.isFlagCheckInstr, nil) != nil
+			}
+		}
+		return false
+	}
 	// functions in ws that test the error of a call that may reach conn.WriteMessage
 	n := 0
 	for _, fn := range a.fns {
@@ -1421,7 +1598,7 @@ func checkWriteFailureReported(p *core.Program, r *core.Report, a *wsAnchors, ru
 				}
 				// a write that fails because the connection was closed locally must not be reported
 				key2 := tn + " write-error@" + p.FnName(fn) + " not-reported-after-local-close"
-				if unchecked := core.PathSearch(fn, call, mustRep.Instr, a.isFlagCheckInstr, nil); unchecked != nil {
+				if unchecked := core.PathSearch(fn, call, reportsUnchecked, a.isFlagCheckInstr, nil); unchecked != nil {
 					r.Fail(rule, key2, p.Pos(unchecked.Pos()), "the write error is reported without re-reading the closed flag after the write: a deliberate local close racing the pump's write is reported as a connection error")
 				} else {
 					r.OK(rule, key2, p.Pos(first.Pos()), "closed flag re-read between the failed write and the report")
@@ -1580,4 +1757,30 @@ func checkTransportWrites(p *core.Program, r *core.Report, a *wsAnchors, li *cor
 	if nw > 1 && len(common) == 0 {
 		r.Fail(R5, "transport writes common mutex", "", "the websocket write sites do not share a mutex")
 	}
+}
+
+// globalFreshError: the package-level variable is stored exactly once (in the package initialiser) and the stored
+// value is a freshly constructed error.
+func globalFreshError(g *ssa.Global) bool {
+	if gCallSitesFor == nil {
+		return false
+	}
+	n, fresh := 0, false
+	visit := func(f *ssa.Function, isInit bool) {
+		core.EachInstr(f, func(in ssa.Instruction) {
+			if st, ok := in.(*ssa.Store); ok && st.Addr == ssa.Value(g) {
+				n++
+				fresh = isInit && neverNilError(st.Val)
+			}
+		})
+	}
+	if ini := g.Pkg.Func("init"); ini != nil {
+		visit(ini, true)
+	}
+	for _, f := range gCallSitesFor.RepoFuncs() {
+		if f.Name() != "init" || f.Synthetic == "" {
+			visit(f, false)
+		}
+	}
+	return n == 1 && fresh
 }
